@@ -234,6 +234,11 @@ class FinishedPdu(AbstractFileDirectiveBase):
                 finished_pdu.pdu_file_directive.packet_len, len(data)
             )
         current_idx = finished_pdu.pdu_file_directive.header_len
+        end_of_params = finished_pdu.packet_len
+        if finished_pdu.pdu_file_directive.pdu_conf.crc_flag == CrcFlag.WITH_CRC:
+            end_of_params -= 2
+        if current_idx + 1 > end_of_params:
+            raise BytesTooShortError(current_idx + 1, end_of_params)
         first_param_byte = data[current_idx]
         params = FinishedParams(
             condition_code=ConditionCode((first_param_byte & 0xF0) >> 4),
